@@ -1,9 +1,13 @@
 package main
 
 import (
+	"fmt"
 	"go/ast"
 	"go/token"
 	"go/types"
+	"golang.org/x/tools/go/cfg"
+	"golang.org/x/tools/go/packages"
+	"strings"
 )
 
 // ---------------------------------------------------------------------------
@@ -256,4 +260,495 @@ func ruleCascadeAwaits(w *World, r *Report, rule string) {
 			"the cascade waits for a Close of the element that is already in progress elsewhere",
 			"scopes are also closed from goroutines of their own ("+w.Pos(async[0])+"), and a Close that loses the gate returns nil at once: the cascade over "+c.owner+"."+table+" does not wait for a Close in progress, so the owner disposes its own instances"+map[string]string{"scope": "", "provider": " and the singletons"}[c.owner]+" while such a scope is still disposing, and its errors are lost")
 	}
+}
+
+// ruleSetInstanceRefusesClosed: setInstance is the last point at which a
+// resolution that overlaps Close can be refused. Every success exit of its
+// Scoped and Transient paths - for a Disposable instance and for any other -
+// is reached with the scope's disposed flag having been found clear; an
+// instance that arrives at a closed scope must yield ErrScopeDisposed, or a
+// parameter object with optional fields is handed out half initialised.
+func ruleSetInstanceRefusesClosed(w *World, r *Report, rule string) {
+	ro := resolveRoles(w)
+	fi := ro.setInstance
+	r.Analysed(fi)
+	d := lifetimeDispatch(w, fi)
+	if !d.dispatches() {
+		r.Undecided(rule, fi.Name()+"#lifetime-dispatch", fi.Decl.Pos(), "%s does not dispatch on the lifetime", fi.Name())
+		return
+	}
+	flag := w.Field(w.Godi, "scope", "disposed")
+	mkSpec := func(info *types.Info, init []string) Spec {
+		return Spec{Must: true, Init: init, Global: globalPrefixes("found-"),
+			Stop: func(h *FuncInfo) bool { return h == ro.setSingleton || ro.isCreate(h.Obj) || h.Obj.Name() == "Close" },
+			Edge: func(b *cfg.Block, i int, cond ast.Expr, in Facts) (gen, kill []string) {
+				if cond == nil {
+					return
+				}
+				if dead, ok := disposedTest(info, cond, flag); ok {
+					if dead == (i == 0) {
+						return []string{"found-closed"}, []string{"found-open"}
+					}
+					return []string{"found-open"}, []string{"found-closed"}
+				}
+				return
+			}}
+	}
+	var check func(f *FuncInfo, fl *Flow, init []string, depth int) string
+	check = func(f *FuncInfo, fl *Flow, init []string, depth int) string {
+		info := f.Pkg.TypesInfo
+		sol := fl.Solve(mkSpec(info, init))
+		for _, ex := range fl.Exits() {
+			if ex.Panic {
+				continue
+			}
+			at := sol.AtExit(ex)
+			if ex.Ret == nil || len(ex.Ret.Results) != 1 {
+				continue
+			}
+			res := unparen(ex.Ret.Results[0])
+			switch {
+			case isNilIdent(info, res):
+				if !at.Has("found-open") {
+					return "the success exit at " + w.Pos(ex.Pos) + " is reached without the scope having been found open"
+				}
+			default:
+				c, isC := res.(*ast.CallExpr)
+				if !isC || depth == 0 {
+					continue // an error value
+				}
+				cal := callee(info, c)
+				h := w.Decls[cal]
+				if h == nil || cal.Exported() || h == ro.setSingleton {
+					continue
+				}
+				var sub []string
+				for k := range at {
+					if strings.HasPrefix(k, "found-") {
+						sub = append(sub, k)
+					}
+				}
+				if bad := check(h, w.FlowOf(h), sub, depth-1); bad != "" {
+					return bad
+				}
+			}
+		}
+		return ""
+	}
+	for _, lt := range []string{"Scoped", "Transient"} {
+		bad := check(fi, d.flowFor(w, lt), nil, 2)
+		r.Check(bad == "", rule, fi.Name()+"#refuses-closed:"+lt, fi.Decl.Pos(), true,
+			"every success exit of the "+lt+" path has found the scope open (after the instance arrived)",
+			lt+" path of "+fi.Name()+": "+bad+": an instance that arrives while (or after) Close runs is accepted - the overlapping resolution reports success, and an optional dependency that failed for the same reason is silently left nil")
+	}
+}
+
+// ruleInstanceTableKeyType: the tables that hold instances (the scope's cache,
+// the provider's singleton table) are keyed by a type that carries all three
+// identity components of a registration - service type, key and group. Group
+// members carry a per-group index as their key, so a table keyed by (type, key)
+// alone serves member n of one group for member n of another group of the same
+// element type.
+func ruleInstanceTableKeyType(w *World, r *Report, rule string) {
+	ro := resolveRoles(w)
+	full := func(t types.Type) (bool, string) {
+		st, ok := derefType(t).Underlying().(*types.Struct)
+		if !ok {
+			return false, "it is not a struct"
+		}
+		var hasType, hasKey, hasGroup bool
+		for i := 0; i < st.NumFields(); i++ {
+			f := st.Field(i)
+			switch {
+			case isNamedType(f.Type(), "reflect", "Type"):
+				hasType = true
+			case f.Name() == "Group" || (f.Name() != "Key" && isStringType(f.Type())):
+				hasGroup = true
+			default:
+				if _, isIface := f.Type().Underlying().(*types.Interface); isIface {
+					hasKey = true
+				}
+			}
+		}
+		var miss []string
+		if !hasType {
+			miss = append(miss, "the service type")
+		}
+		if !hasKey {
+			miss = append(miss, "the key")
+		}
+		if !hasGroup {
+			miss = append(miss, "the group")
+		}
+		return len(miss) == 0, "it lacks " + strings.Join(miss, ", ")
+	}
+	// the scope cache
+	if m, ok := ro.cache.Type().Underlying().(*types.Map); ok {
+		good, why := full(m.Key())
+		r.Check(good, rule, "scope."+ro.cache.Name()+"#key-type", ro.cache.Pos(), false,
+			"the scope's instance cache is keyed by service type, key and group",
+			"the scope's instance cache is keyed by "+types.TypeString(m.Key(), nil)+": "+why+", so distinct registrations share one cache entry (group members carry a per-group index as key)")
+	} else {
+		r.Undecided(rule, "scope."+ro.cache.Name()+"#key-type", ro.cache.Pos(), "the scope's instance cache is not a map: its key type is not decided")
+	}
+	// the singleton table: the key expressions of Load/Store/LoadOrStore/Delete (sync.Map), or the map key type
+	if m, ok := ro.singletons.Type().Underlying().(*types.Map); ok {
+		good, why := full(m.Key())
+		r.Check(good, rule, "provider."+ro.singletons.Name()+"#key-type", ro.singletons.Pos(), false,
+			"the singleton table is keyed by service type, key and group",
+			"the singleton table is keyed by "+types.TypeString(m.Key(), nil)+": "+why)
+		return
+	}
+	n := 0
+	for _, fi := range w.FuncsOf(w.Godi) {
+		info := fi.Pkg.TypesInfo
+		for _, c := range callsIn(fi.Decl.Body, true) {
+			rcv, name, ok := methodCall(c)
+			if !ok || fieldOf(info, rcv) != ro.singletons || len(c.Args) == 0 {
+				continue
+			}
+			switch name {
+			case "Load", "Store", "LoadOrStore", "LoadAndDelete", "Delete", "CompareAndSwap", "Swap":
+			default:
+				continue
+			}
+			n++
+			t := info.TypeOf(c.Args[0])
+			good, why := full(t)
+			r.Check(good, rule, fmt.Sprintf("%s#singleton-key/%d", fi.Name(), n), c.Pos(), false,
+				"the singleton table is addressed with service type, key and group",
+				"the singleton table is addressed with a "+types.TypeString(t, nil)+": "+why)
+		}
+	}
+	if n == 0 {
+		r.Fail(rule, "provider."+ro.singletons.Name()+"#key-type", ro.singletons.Pos(), "no access to the singleton table found")
+	}
+}
+
+func isStringType(t types.Type) bool {
+	b, ok := t.Underlying().(*types.Basic)
+	return ok && b.Info()&types.IsString != 0
+}
+
+// ruleGroupResolvedPerCall: what GetGroup returns is assembled, in this very
+// call, from one resolution per member: on every success exit the result is an
+// empty list, or a local list that only ever receives `append(list, x)` with x
+// bound by a call that reaches resolve. A list that comes from a field, a
+// package variable or a spread of another slice is a memo - transient members
+// would be handed out twice.
+func ruleGroupResolvedPerCall(w *World, r *Report, rule string) {
+	ro := resolveRoles(w)
+	top := w.MustFn(w.Godi, "(*scope).GetGroup")
+	r.Analysed(top)
+	reachesResolve := func(info *types.Info, c *ast.CallExpr) bool {
+		cal := callee(info, c)
+		t := w.Decls[cal]
+		if t == nil {
+			return false
+		}
+		for _, g := range w.Within(t, 2) {
+			if g == ro.resolve || g == ro.resolveTop {
+				return true
+			}
+		}
+		return false
+	}
+	var check func(fi *FuncInfo, depth int) string
+	check = func(fi *FuncInfo, depth int) string {
+		info := fi.Pkg.TypesInfo
+		// variables bound by a call that reaches resolve
+		fromResolve := map[types.Object]bool{}
+		ast.Inspect(fi.Decl.Body, func(x ast.Node) bool {
+			if as, ok := x.(*ast.AssignStmt); ok && len(as.Rhs) == 1 {
+				if c, ok := unparen(as.Rhs[0]).(*ast.CallExpr); ok && reachesResolve(info, c) && len(as.Lhs) >= 1 {
+					fromResolve[objOf(info, as.Lhs[0])] = true
+				}
+			}
+			return true
+		})
+		okList := func(v types.Object) string {
+			bad := ""
+			ast.Inspect(fi.Decl.Body, func(x ast.Node) bool {
+				switch s := x.(type) {
+				case *ast.AssignStmt:
+					if len(s.Lhs) != len(s.Rhs) {
+						for _, l := range s.Lhs {
+							if objOf(info, l) == v {
+								bad = "it is bound by " + exprStr(s.Rhs[0])
+							}
+						}
+						return true
+					}
+					for i, l := range s.Lhs {
+						if objOf(info, l) != v {
+							continue
+						}
+						rhs := unparen(s.Rhs[i])
+						if cl := litOf(rhs); cl != nil && len(cl.Elts) == 0 {
+							continue
+						}
+						if isNilIdent(info, rhs) {
+							continue
+						}
+						c, isC := rhs.(*ast.CallExpr)
+						if !isC {
+							bad = "it is assigned " + exprStr(rhs)
+							continue
+						}
+						if id, ok := unparen(c.Fun).(*ast.Ident); ok {
+							if b, isB := info.Uses[id].(*types.Builtin); isB {
+								switch b.Name() {
+								case "make":
+									continue
+								case "append":
+									if objOf(info, c.Args[0]) != v || c.Ellipsis.IsValid() {
+										bad = "it receives " + exprStr(rhs)
+										continue
+									}
+									for _, a := range c.Args[1:] {
+										if !fromResolve[objOf(info, a)] {
+											if cc, ok := unparen(a).(*ast.CallExpr); !ok || !reachesResolve(info, cc) {
+												bad = "it receives " + exprStr(a) + ", which is not the result of a resolution made by this call"
+											}
+										}
+									}
+									continue
+								}
+							}
+						}
+						bad = "it is assigned " + exprStr(rhs)
+					}
+				case *ast.ValueSpec:
+					for i, nm := range s.Names {
+						if info.Defs[nm] == v && i < len(s.Values) {
+							if cl := litOf(s.Values[i]); cl == nil || len(cl.Elts) != 0 {
+								if c, ok := unparen(s.Values[i]).(*ast.CallExpr); !ok || exprStr(c.Fun) != "make" {
+									bad = "it is initialised with " + exprStr(s.Values[i])
+								}
+							}
+						}
+					}
+				}
+				return true
+			})
+			return bad
+		}
+		fl := w.FlowOf(fi)
+		for _, ex := range fl.Exits() {
+			if ex.Panic || ex.Ret == nil || len(ex.Ret.Results) != 2 || !isNilIdent(info, ex.Ret.Results[1]) {
+				continue
+			}
+			res := unparen(ex.Ret.Results[0])
+			if cl := litOf(res); cl != nil && len(cl.Elts) == 0 {
+				continue
+			}
+			if isNilIdent(info, res) {
+				continue
+			}
+			if v := objOf(info, res); v != nil {
+				if _, isVar := v.(*types.Var); isVar && fi.Decl.Body.Pos() <= v.Pos() && v.Pos() < fi.Decl.Body.End() {
+					if bad := okList(v); bad != "" {
+						return "the list " + v.Name() + " returned at " + w.Pos(ex.Pos) + " is not built from this call's resolutions only: " + bad
+					}
+					continue
+				}
+			}
+			if c, ok := res.(*ast.CallExpr); ok && depth > 0 {
+				if t := w.Decls[callee(info, c)]; t != nil && t.Pkg == fi.Pkg {
+					if bad := check(t, depth-1); bad != "" {
+						return bad
+					}
+					continue
+				}
+			}
+			return "the success exit at " + w.Pos(ex.Pos) + " returns " + exprStr(res) + ", which is not a list built by this call"
+		}
+		// a multi-value return of a helper: return s.groupMembers(...)
+		for _, ex := range fl.Exits() {
+			if ex.Ret != nil && len(ex.Ret.Results) == 1 && depth > 0 {
+				if c, ok := unparen(ex.Ret.Results[0]).(*ast.CallExpr); ok {
+					if t := w.Decls[callee(info, c)]; t != nil && t.Pkg == fi.Pkg {
+						if bad := check(t, depth-1); bad != "" {
+							return bad
+						}
+					}
+				}
+			}
+		}
+		return ""
+	}
+	bad := check(top, 2)
+	r.Check(bad == "", rule, top.Name()+"#members-resolved-per-call", top.Decl.Pos(), true,
+		"every success exit returns an empty list or a list assembled in this call from one resolution per member",
+		top.Name()+": "+bad+": a group answer that is kept between calls hands the same transient members out again")
+}
+
+// ruleNoInstanceMapKeys: a service instance is an arbitrary user value - a
+// slice-based type with a value-receiver Close, a struct with a slice field. A
+// map keyed by an interface type that holds instances (Disposable, any) panics
+// with "hash of unhashable type" when such a value is inserted: outside the
+// constructor's recover, possibly with a lock held. The container's own key
+// types wrap the user's key in a struct together with a reflect.Type and are
+// documented to need hashable keys; instances have no such contract.
+func ruleNoInstanceMapKeys(w *World, r *Report, rule string) {
+	n := 0
+	seen := map[string]bool{}
+	checkType := func(t types.Type, pos token.Pos, where string) {
+		m, ok := t.Underlying().(*types.Map)
+		if !ok {
+			return
+		}
+		n++
+		k := m.Key()
+		if _, isTP := k.(*types.TypeParam); isTP {
+			return // a generic helper: judged at its instantiations' field/variable types
+		}
+		if _, isIface := k.Underlying().(*types.Interface); !isIface || isNamedType(k, "reflect", "Type") {
+			return
+		}
+		key := where + "|" + types.TypeString(t, nil)
+		if seen[key] {
+			return
+		}
+		seen[key] = true
+		r.Fail(rule, where+"#map-key:"+types.TypeString(k, func(p *types.Package) string { return p.Name() }), pos,
+			"%s has a map keyed by the interface type %s: inserting a service instance whose dynamic type is unhashable (a slice type with a Close method, a struct with a slice field) panics with \"hash of unhashable type\" - outside the constructor's recover", where, types.TypeString(k, nil))
+	}
+	for _, p := range []*packages.Package{w.Godi, w.Refl, w.Graph} {
+		for e, tv := range p.TypesInfo.Types {
+			if tv.IsType() {
+				if _, isMapType := e.(*ast.MapType); isMapType {
+					where := "package " + p.Types.Name()
+					if fi := w.FuncAt(e.Pos()); fi != nil {
+						where = fi.Name()
+					}
+					checkType(tv.Type, e.Pos(), where)
+				}
+			}
+		}
+	}
+	if n == 0 {
+		r.Fail(rule, "maps", token.NoPos, "no map type found in the repository packages")
+		return
+	}
+	if len(seen) == 0 {
+		r.OK(rule, "maps#no-interface-keys", token.NoPos, false, "%d map types, none keyed by an interface type that can hold a service instance", n)
+	}
+}
+
+// ruleDeletedNodesUnlinked: after a node is deleted from the node table no edge
+// list may still name it. Two idioms re-establish that: a sweep over the whole
+// edge table that rewrites the lists (RemoveProvider), or a call of the group
+// linker, which rebuilds the lists of the group reference nodes - the only
+// lists of *other* nodes that an add writes. A rollback that deletes the node it
+// added and recomputes only the degrees leaves the group's reference node
+// pointing at a member that does not exist: wrong degrees, a bogus "circular
+// dependency" from the topological sort.
+func ruleDeletedNodesUnlinked(w *World, r *Report, rule string) {
+	g := resolveGraph(w)
+	linker := groupLinker(w)
+	n := 0
+	for _, fi := range w.FuncsOf(w.Graph) {
+		if !fi.Obj.Exported() || recvNamed(fi.Obj) == nil || recvNamed(fi.Obj).Obj().Name() != "DependencyGraph" {
+			continue
+		}
+		info := fi.Pkg.TypesInfo
+		fl := w.FlowOf(fi)
+		// edge-table sweeps: loops over g.edges whose body assigns g.edges[k]
+		sweep := map[ast.Stmt]bool{}
+		for _, f := range w.Within(fi, 2) {
+			finfo := f.Pkg.TypesInfo
+			for _, il := range iterLoopsIn(finfo, f.Decl.Body) {
+				if fieldOf(finfo, il.Coll) != g.edges {
+					continue
+				}
+				ast.Inspect(il.Body, func(x ast.Node) bool {
+					if as, ok := x.(*ast.AssignStmt); ok {
+						for _, l := range as.Lhs {
+							if ix, ok := unparen(l).(*ast.IndexExpr); ok && fieldOf(finfo, ix.X) == g.edges {
+								sweep[il.Stmt] = true
+							}
+						}
+					}
+					return true
+				})
+			}
+		}
+		resets := func(finfo *types.Info, nd ast.Node) bool { // g.nodes = make(...): nothing left to name
+			as, ok := nd.(*ast.AssignStmt)
+			if !ok {
+				return false
+			}
+			for _, l := range as.Lhs {
+				if fieldOf(finfo, l) == g.nodes || fieldOf(finfo, l) == g.edges {
+					return true
+				}
+			}
+			return false
+		}
+		spec := Spec{Must: false, Global: globalPrefixes("node-deleted"),
+			Stop: func(h *FuncInfo) bool { return h == g.updateDegrees || h == linker },
+			Node: func(nd ast.Node, in Facts) (gen, kill []string) {
+				finfo := info
+				if f := w.FuncAt(nd.Pos()); f != nil {
+					finfo = f.Pkg.TypesInfo
+				}
+				for _, c := range callsIn(nd, false) {
+					if id, ok := unparen(c.Fun).(*ast.Ident); ok && id.Name == "delete" && len(c.Args) == 2 && fieldOf(finfo, c.Args[0]) == g.nodes {
+						gen = append(gen, "node-deleted")
+					}
+					if linker != nil && callee(finfo, c) == linker.Obj {
+						kill = append(kill, "node-deleted")
+					}
+				}
+				if resets(finfo, nd) {
+					kill = append(kill, "node-deleted")
+				}
+				return
+			},
+			Edge: func(b *cfg.Block, i int, cond ast.Expr, in Facts) (gen, kill []string) {
+				// leaving a sweep over the edge table
+				if b.Kind == cfg.KindRangeLoop && i == 1 && sweep[b.Stmt] {
+					kill = append(kill, "node-deleted")
+				}
+				return
+			}}
+		sol := fl.Solve(spec)
+		deletes := false
+		for _, f := range w.Within(fi, 2) {
+			if f == linker || f == g.updateDegrees {
+				continue
+			}
+			for _, c := range callsIn(f.Decl.Body, false) {
+				if id, ok := unparen(c.Fun).(*ast.Ident); ok && id.Name == "delete" && len(c.Args) == 2 && fieldOf(f.Pkg.TypesInfo, c.Args[0]) == g.nodes {
+					deletes = true
+				}
+			}
+		}
+		if !deletes {
+			continue
+		}
+		r.Analysed(fi)
+		k := 0
+		for _, ex := range fl.Exits() {
+			if ex.Panic {
+				continue
+			}
+			k++
+			n++
+			r.Check(!sol.AtExit(ex).Has("node-deleted"), rule, fmt.Sprintf("%s#deleted-node-unlinked/%d", fi.Name(), k), ex.Pos, true,
+				"no node is deleted on a path to this exit without the edge lists having been swept or the group links rebuilt afterwards",
+				"the exit at "+w.Pos(ex.Pos)+" can be reached after a node was deleted from the node table with neither a sweep of the edge table nor a call of "+nameOrQ(linker)+" after it: a group reference node keeps an edge to the deleted member (wrong degrees; the topological sort reports a cycle that does not exist)")
+		}
+	}
+	if n == 0 {
+		r.Fail(rule, "graph#deleted-node-unlinked", token.NoPos, "no exported graph method deletes from the node table")
+	}
+}
+
+func nameOrQ(fi *FuncInfo) string {
+	if fi == nil {
+		return "the group linker"
+	}
+	return fi.Name()
 }
